@@ -19,7 +19,7 @@ func init() {
 	register(&Rule{
 		Prop: "C04",
 		Explanation: "Every way a command can enter a search answer passes both filters, decided from the SSA form for every database, query and flag setting: (O-1) each insertion site of the engine — the score-accumulator update of the lexical/NLP path, the matcher-target store of the typo fallback (an unfilled target never matches), and the result append of the pipeline search — is unreachable unless the platform gate passed for that very command (same index / same pointer) and unless the pipeline gate passed (PipelineOnly false or isPipelineCommand of that command); cached answers are conversions of such lists; " +
-			"(O-2) the platform gate is one function whose `true` results are reachable only through: AllPlatforms; no declared platform; a declared platform equal to the host platform when no platform was requested, or to one of the requested platforms (every element of Platforms is tried); or, only when NoCrossPlatform is false, the cross-platform tag / recognised cross-platform tool — and every SearchOptions field the CLI fills from a flag is read on the path the CLI calls; (O-3) every comparison of a platform tag is case-insensitive (EqualFold, or a ToLower image against lower-case names); (O-5) the alias tests of the platform families, read off as a table of (family, test kind, constant), accept no platform name or alias constant of another family; (O-4) all paths use the same pipeline classifier and the same cross-platform-tool classifier; (O-6) every option the gates read is a serialised part of the cache key and is copied unchanged from the searched options wherever cache options are built, so a cached list was filtered under the same filter options as the request it answers. The content of the alias table and of the tool whitelist is data and not decided.",
+			"(O-2) the platform gate is one function whose `true` results are reachable only through: AllPlatforms; no declared platform; a declared platform equal to the host platform when no platform was requested, or to one of the requested platforms (every element of Platforms is tried); or, only when NoCrossPlatform is false, the cross-platform tag / recognised cross-platform tool — and every SearchOptions field the CLI fills from a flag is read on the path the CLI calls; (O-3) every comparison of a platform tag is case-insensitive (EqualFold, or a ToLower image against lower-case names); (O-5) the alias tests of the platform families, read off as a table of (family, test kind, constant) from the comparisons or from a package-level table of constants written once, accept no platform name or alias constant of another family, and no tag is matched by prefix, suffix or substring against a value that is not such a constant; (O-4) all paths use the same pipeline classifier and the same cross-platform-tool classifier; (O-6) every option the gates read is a serialised part of the cache key and is copied unchanged from the searched options wherever cache options are built, so a cached list was filtered under the same filter options as the request it answers. The content of the alias table and of the tool whitelist is data and not decided.",
 		NotDecided:  []string{"whether the platform alias table is complete and which tools the cross-platform whitelist names (only the disjointness of the alias families is decided, O-5)", "the CLI's last-resort recovery search, which the property's filter clause does not list (it filters nothing)"},
 		Assumptions: []string{"fuzzy.Find never matches an empty target for a non-empty pattern"},
 		Run:         runC04,
@@ -834,7 +834,24 @@ func c04Case(c *Ctx, g *gateInfo) {
 		ord := newOrdinal()
 		var checkOperand func(v ssa.Value) (bool, string)
 		depthCO := 0
+
 		checkOperand = func(v ssa.Value) (bool, string) {
+			// a string held in a package-level table of constants, all lower-case
+			if ref, ok := c04TableOf(v, 0); ok {
+				data, ok := c04TableData(ref.g)
+				if !ok {
+					return false, "table:" + ref.g.Name()
+				}
+				for _, rec := range data {
+					for _, s := range rec[ref.field] {
+						if s != strings.ToLower(s) {
+							return false, "table:" + ref.g.Name() + " holds " + s
+						}
+						n++ // one comparison per string the table holds
+					}
+				}
+				return true, ""
+			}
 			for _, rt := range tr.Roots(v) {
 				switch {
 				case rt.Kind == "elem" && depthCO < 3:
@@ -903,7 +920,7 @@ func c04Case(c *Ctx, g *gateInfo) {
 // another platform's table lets foreign commands through the filter.
 func c04Aliases(c *Ctx, g *gateInfo) {
 	r := c.R
-	r.Rule("O-5", "alias tables are disjoint: within the gate's closure, no alias test of one platform family (==, EqualFold, HasPrefix, HasSuffix, Contains against a constant, under a test of the platform against that family's constant) accepts the platform name or an alias constant of another family")
+	r.Rule("O-5", "alias tables are disjoint: within the gate's closure, no alias test of one platform family (==, EqualFold, HasPrefix, HasSuffix, Contains against a constant, under a test of the platform against that family's constant) accepts the platform name or an alias constant of another family; alias constants may be held in a package-level table keyed by the family; no prefix, suffix or substring test matches a tag against a run-time value")
 	type test struct {
 		root  ssa.Value
 		kind  string
@@ -964,7 +981,10 @@ func c04Aliases(c *Ctx, g *gateInfo) {
 		return false
 	}
 	nTag := 0
+	nPartial := 0
+	ordPartial := newOrdinal()
 	for _, fn := range reachClosure(c, []*ssa.Function{g.fn}) {
+		fn := fn
 		var tests []test
 		ssau.ForEachInstr(fn, false, func(in ssa.Instruction) {
 			switch x := in.(type) {
@@ -1005,6 +1025,18 @@ func c04Aliases(c *Ctx, g *gateInfo) {
 					k, ok = ssau.ConstString(kv)
 				}
 				if !ok {
+					// a partial match of a tag against a run-time value (the platform
+					// asked for, say): a blank or abbreviated name then matches every
+					// tag, or tags of another family. Whole-string comparison with the
+					// platform in force is the rule itself and is fine.
+					if kind != "EqualFold" && fn.Name() != "isCrossPlatformTool" && fn.Name() != "isPipelineCommand" {
+						if _, isTable := c04TableOf(kv, 0); !isTable {
+							if _, isTable2 := c04TableOf(a[0], 0); !isTable2 {
+								nPartial++
+								r.Bad("O-5", ordPartial.next(load.FuncKey(fn)+"#partial-match-on-a-run-time-value"), c.P.Pos(x.Pos()), "strings."+kind+" matches a platform tag against a value that is not a constant of an alias family: with a blank or abbreviated platform name it accepts every tag, or tags of another platform")
+							}
+						}
+					}
 					return
 				}
 				iff, neg := ifOf(x)
@@ -1015,6 +1047,64 @@ func c04Aliases(c *Ctx, g *gateInfo) {
 		// every path to the tag test passes
 		fam := map[string][]test{}
 		var order []string
+		// ... or the family is the key of a package-level table whose records
+		// hold the alias strings: one test per string in the table
+		ssau.ForEachInstr(fn, false, func(in ssa.Instruction) {
+			var subj, kv ssa.Value
+			kind := ""
+			switch x := in.(type) {
+			case *ssa.BinOp:
+				if x.Op != token.EQL && x.Op != token.NEQ {
+					return
+				}
+				if b, isB := x.X.Type().Underlying().(*types.Basic); !isB || b.Info()&types.IsString == 0 {
+					return
+				}
+				subj, kv, kind = x.X, x.Y, "=="
+				if _, ok := c04TableOf(kv, 0); !ok {
+					subj, kv = x.Y, x.X
+				}
+			case *ssa.Call:
+				kind = strings.TrimPrefix(ssau.CallName(x), "strings.")
+				switch kind {
+				case "HasPrefix", "HasSuffix", "Contains", "EqualFold":
+				default:
+					return
+				}
+				subj, kv = x.Common().Args[0], x.Common().Args[1]
+				if _, ok := c04TableOf(kv, 0); !ok && kind == "EqualFold" {
+					subj, kv = kv, subj
+				}
+			default:
+				return
+			}
+			ref, ok := c04TableOf(kv, 0)
+			if !ok {
+				return
+			}
+			data, ok := c04TableData(ref.g)
+			if !ok {
+				r.Bad("O-5", load.FuncKey(fn)+"#alias-table:"+ref.g.Name(), c.P.Pos(in.Pos()), "platform tags are matched against the package-level table "+ref.g.Name()+", whose content is not a constant initialiser written once")
+				return
+			}
+			var keys []string
+			for k := range data {
+				keys = append(keys, k)
+			}
+			sort.Strings(keys)
+			for _, k := range keys {
+				for _, s := range data[k][ref.field] {
+					if _, seen := fam[k]; !seen {
+						order = append(order, k)
+					}
+					fam[k] = append(fam[k], test{rootOf(subj), kind, s, in.Block(), nil, 0, in.Pos()})
+				}
+				if _, seen := fam[k]; !seen {
+					order = append(order, k)
+					fam[k] = nil
+				}
+			}
+		})
 		for _, t := range tests {
 			for _, f := range tests {
 				if f.kind != "==" || f.iff == nil || f.root == t.root || f.blk == t.blk {
@@ -1061,6 +1151,7 @@ func c04Aliases(c *Ctx, g *gateInfo) {
 		}
 	}
 	r.Floor("O-5", "alias tests read into the table", nTag, 11)
+	r.Analysed["partial_matches_on_run_time_values"] = nPartial
 }
 
 // c04ListSources: the list values a container expression can hold when it is
@@ -1417,10 +1508,18 @@ func c04TrueOnlyLegit(v ssa.Value, d int, isCls func(*ssa.Call) bool, legit map[
 func c04CachedAnswers(c *Ctx, g *gateInfo, sx *symx.Ctx) {
 	r := c.R
 	r.Rule("O-6", "cached answers: every option the platform gate or the pipeline gate reads is a serialised field of the cache key options and is copied unchanged from the searched options wherever cache options are built")
-	R := optionReadsIn(c, reachClosure(c, []*ssa.Function{g.fn}))
+	// the options the property's two filters are about, as far as the search
+	// path reads them (wherever: the gate itself, or a per-search object built
+	// from the options before the gate runs), and whatever else the gate reads
+	R := map[string][]string{}
 	all, _ := optionReads(c)
-	if pos, ok := all["PipelineOnly"]; ok {
-		R["PipelineOnly"] = pos
+	for _, f := range []string{"AllPlatforms", "Platforms", "NoCrossPlatform", "PipelineOnly"} {
+		if pos, ok := all[f]; ok {
+			R[f] = pos
+		}
+	}
+	for f, pos := range optionReadsIn(c, reachClosure(c, []*ssa.Function{g.fn})) {
+		R[f] = pos
 	}
 	var names []string
 	for f := range R {
